@@ -21,6 +21,7 @@ import (
 	"strings"
 	"sync"
 
+	martian "github.com/google/martian/v3"
 	"github.com/google/martian/v3/har"
 	mlog "github.com/google/martian/v3/log"
 	"verifharness/hx"
@@ -69,6 +70,94 @@ type driver struct {
 	viaHTTP bool
 	exportH http.Handler
 	resetH  http.Handler
+	// what Export / ExportAndReset handed out, kept until the end of the case:
+	// an export is a snapshot, later operations must not change it
+	kept []keptExport
+	nop  int
+	conc bool // concurrent case: several goroutines call do(); nothing is retained
+	// MOD cases: the log is driven through ModifyRequest / ModifyResponse with
+	// real martian contexts (IDs are the contexts' own)
+	mod  bool
+	exch map[string]*exchange
+	byID map[string]string
+}
+
+type keptExport struct {
+	at   int
+	h    *har.HAR
+	then string
+}
+
+type exchange struct {
+	req    *http.Request
+	ctx    *martian.Context
+	remove func()
+}
+
+// exchange k of a MOD case, created on first mention; flags: l = the context
+// skips logging, r = the context skips the round trip (must not matter).
+func (d *driver) exchangeOf(spec string) *exchange {
+	k := strings.TrimRight(spec, "lr")
+	if e, ok := d.exch[k]; ok {
+		return e
+	}
+	req := mkReq(k)
+	ctx, remove, err := martian.TestContext(req, nil, nil)
+	if err != nil {
+		panic(err)
+	}
+	if strings.Contains(spec[len(k):], "l") {
+		ctx.SkipLogging()
+	}
+	if strings.Contains(spec[len(k):], "r") {
+		ctx.SkipRoundTrip()
+	}
+	e := &exchange{req: req, ctx: ctx, remove: remove}
+	d.exch[k] = e
+	d.byID[ctx.ID()] = k
+	return e
+}
+
+func (d *driver) list(es []*har.Entry) string {
+	if !d.mod {
+		return fmtList(es)
+	}
+	// rename the context IDs to the exchange numbers of the case
+	cp := make([]*har.Entry, len(es))
+	for i, e := range es {
+		if e == nil {
+			continue
+		}
+		c := *e
+		if k, ok := d.byID[e.ID]; ok {
+			c.ID = k
+		} else {
+			c.ID = "0" // an ID no exchange of this case has
+		}
+		cp[i] = &c
+	}
+	return fmtList(cp)
+}
+
+func (d *driver) keep(h *har.HAR, s string) string {
+	if d.conc {
+		return s
+	}
+	d.kept = append(d.kept, keptExport{at: d.nop, h: h, then: s})
+	return s
+}
+
+// finish re-reads every retained export: one that no longer reads as it did
+// when it was handed out is marked.
+func (d *driver) finish(out []string) {
+	for _, k := range d.kept {
+		if now := d.list(k.h.Log.Entries); now != k.then && k.at < len(out) {
+			out[k.at] = out[k.at] + "!mutated"
+		}
+	}
+	for _, e := range d.exch {
+		e.remove()
+	}
 }
 
 func newDriver(viaHTTP bool) *driver {
@@ -86,10 +175,29 @@ func decodeHAR(rec *httptest.ResponseRecorder) string {
 
 func (d *driver) do(op string) (out string) {
 	defer func() {
+		if !d.conc {
+			d.nop++
+		}
 		if r := recover(); r != nil {
 			out = "PANIC"
 		}
 	}()
+	if d.mod && (op[0] == 'Q' || op[0] == 'S') {
+		if op[0] == 'Q' {
+			e := d.exchangeOf(op[1:])
+			if err := d.l.ModifyRequest(e.req); err != nil {
+				return "u"
+			}
+			return "d"
+		}
+		p := strings.SplitN(op[1:], ":", 2)
+		st, _ := strconv.Atoi(p[1])
+		e := d.exchangeOf(p[0])
+		if err := d.l.ModifyResponse(mkRes(st, e.req)); err != nil {
+			return "err"
+		}
+		return "d"
+	}
 	switch op {
 	case "Zb": // reset with a malformed `return` parameter: 400, log untouched
 		rec := httptest.NewRecorder()
@@ -128,14 +236,16 @@ func (d *driver) do(op string) (out string) {
 			d.exportH.ServeHTTP(rec, httptest.NewRequest("GET", "/logs", nil))
 			return decodeHAR(rec)
 		}
-		return fmtList(d.l.Export().Log.Entries)
+		h := d.l.Export()
+		return d.keep(h, d.list(h.Log.Entries))
 	case 'X':
 		if d.viaHTTP {
 			rec := httptest.NewRecorder()
 			d.resetH.ServeHTTP(rec, httptest.NewRequest("DELETE", "/logs/reset?return=true", nil))
 			return decodeHAR(rec)
 		}
-		return fmtList(d.l.ExportAndReset().Log.Entries)
+		h := d.l.ExportAndReset()
+		return d.keep(h, d.list(h.Log.Entries))
 	case 'Z':
 		if d.viaHTTP {
 			rec := httptest.NewRecorder()
@@ -156,15 +266,20 @@ func runCase(in []string) []string {
 		return nil
 	}
 	switch in[0] {
-	case "SEQ", "HTTP":
+	case "SEQ", "HTTP", "MOD":
 		d := newDriver(in[0] == "HTTP")
+		if in[0] == "MOD" {
+			d.mod, d.exch, d.byID = true, map[string]*exchange{}, map[string]string{}
+		}
 		out := make([]string, 0, len(in)-1)
 		for _, op := range in[1:] {
 			out = append(out, d.do(op))
 		}
+		d.finish(out)
 		return out
 	case "CONC":
 		d := newDriver(false)
+		d.conc = true
 		var threads [][]string
 		var fin []string
 		inFin := false
@@ -338,6 +453,53 @@ func main() {
 			}
 		}
 		emit("rnd", append([]string{kind}, stamp(ops)...))
+	}
+
+	// 2b. histories driven through ModifyRequest / ModifyResponse with real
+	// martian contexts: exchanges that skip logging leave no trace, skipping the
+	// round trip changes nothing; the same exchange may be offered twice.
+	nm := 150
+	if cfg.Thorough() {
+		nm = 2000
+	}
+	if concOnly {
+		nm = 0
+	}
+	for k := 0; k < nm; k++ {
+		r := rng.Fork()
+		ln := r.Range(8, 30)
+		nx := r.Range(2, 6)
+		flags := make([]string, nx)
+		for i := range flags {
+			switch r.Intn(6) {
+			case 0:
+				flags[i] = "l"
+			case 1, 2:
+				flags[i] = "r"
+			case 3:
+				if r.Chance(1, 3) {
+					flags[i] = "lr"
+				}
+			}
+		}
+		ops := make([]string, ln)
+		for i := range ops {
+			x := r.Intn(nx)
+			id := strconv.Itoa(x+1) + flags[x]
+			switch c := r.Intn(20); {
+			case c < 7:
+				ops[i] = "Q" + id
+			case c < 13:
+				ops[i] = fmt.Sprintf("S%s:%d", id, 200+i)
+			case c < 16:
+				ops[i] = "E"
+			case c < 19:
+				ops[i] = "X"
+			default:
+				ops[i] = "Z"
+			}
+		}
+		emit("mod", append([]string{"MOD"}, ops...))
 	}
 
 	// 3. concurrent batches: 2..3 threads x <=4 ops on overlapping IDs
